@@ -41,6 +41,9 @@ struct Parser {
 // helpers to build PR
 #define ALT(cond, nm) if (!(cond)) { if (!pr.altered.empty()) pr.altered += ","; pr.altered += nm; }
 
+// g_gen: call the library's encoders to produce the valid seed strings.  Done in a forked child only (an encoder
+// that crashes must not take the harness down); the parent builds the registry without seeds and receives them.
+static bool g_gen = false;
 static std::vector<Parser> make_parsers(bool T) {
   std::vector<Parser> P;
   const size_t NSEED = T ? 50 : 12;
@@ -54,7 +57,7 @@ static std::vector<Parser> make_parsers(bool T) {
   { // ---- DMS::Decode(s, ind)
     Parser p; p.name = "DMS::Decode";
     p.run = [](const std::string& s) { PR pr; DMS::flag ind = DMS::flag(7); volatile double r = DS; pr.t = fault::guarded([&] { r = DMS::Decode(s, ind); }); if (pr.t.threw()) { ALT(int(ind) == 7, "ind"); } return pr; };
-    for (auto& q : pos) for (int prec : {0, 3, 7}) for (int tr : {0, 1, 2}) { p.seeds.push_back(DMS::Encode(q.first, DMS::component(tr), prec, DMS::LATITUDE)); p.seeds.push_back(DMS::Encode(q.second, DMS::component(tr), prec, DMS::LONGITUDE, ':')); }
+    if (g_gen) for (auto& q : pos) for (int prec : {0, 3, 7}) for (int tr : {0, 1, 2}) { p.seeds.push_back(DMS::Encode(q.first, DMS::component(tr), prec, DMS::LATITUDE)); p.seeds.push_back(DMS::Encode(q.second, DMS::component(tr), prec, DMS::LONGITUDE, ':')); }
     for (const char* s : {"1:2:3", "-0", "+1e2", "4d0'9\"", "4.5'", "-7.25\"S", "nan", "inf", "-infinity", "S33d", "1d+2'", "70:5W", "5\xc2\xb0" "3\xe2\x80\xb2" "2\xe2\x80\xb3N"}) p.seeds.push_back(s);
     cap(p.seeds); P.push_back(p);
   }
@@ -63,20 +66,20 @@ static std::vector<Parser> make_parsers(bool T) {
     p.run = [lf, which](const std::string& s) { PR pr; double lat = DS, lon = DS; std::string other = which ? "40.5" : "70.25";
       pr.t = fault::guarded([&] { if (which) DMS::DecodeLatLon(other, s, lat, lon, lf != 0); else DMS::DecodeLatLon(s, other, lat, lon, lf != 0); });
       if (pr.t.threw()) { ALT(dsame(lat), "lat"); ALT(dsame(lon), "lon"); } return pr; };
-    for (auto& q : pos) for (int prec : {0, 4}) { p.seeds.push_back(DMS::Encode(q.first, prec, DMS::LATITUDE)); p.seeds.push_back(DMS::Encode(q.second, prec, DMS::LONGITUDE)); p.seeds.push_back(DMS::Encode(q.first, prec, DMS::NONE)); }
+    if (g_gen) for (auto& q : pos) for (int prec : {0, 4}) { p.seeds.push_back(DMS::Encode(q.first, prec, DMS::LATITUDE)); p.seeds.push_back(DMS::Encode(q.second, prec, DMS::LONGITUDE)); p.seeds.push_back(DMS::Encode(q.first, prec, DMS::NONE)); }
     for (const char* s : {"90", "-90", "90N", "91", "180E", "nan", "1e2"}) p.seeds.push_back(s);
     cap(p.seeds); P.push_back(p);
   }
   { Parser p; p.name = "DMS::DecodeAngle"; p.run = [](const std::string& s) { PR pr; volatile double r; pr.t = fault::guarded([&] { r = DMS::DecodeAngle(s); }); return pr; };
-    for (auto& q : pos) for (int prec : {0, 5}) p.seeds.push_back(DMS::Encode(q.second, prec, DMS::NUMBER)), p.seeds.push_back(DMS::Encode(q.first, prec, DMS::NONE));
+    if (g_gen) for (auto& q : pos) for (int prec : {0, 5}) p.seeds.push_back(DMS::Encode(q.second, prec, DMS::NUMBER)), p.seeds.push_back(DMS::Encode(q.first, prec, DMS::NONE));
     cap(p.seeds); P.push_back(p); }
   { Parser p; p.name = "DMS::DecodeAzimuth"; p.run = [](const std::string& s) { PR pr; volatile double r; pr.t = fault::guarded([&] { r = DMS::DecodeAzimuth(s); }); return pr; };
-    for (auto& q : pos) for (int prec : {0, 5}) p.seeds.push_back(DMS::Encode(q.second, prec, DMS::AZIMUTH)), p.seeds.push_back(DMS::Encode(q.second, prec, DMS::LONGITUDE));
+    if (g_gen) for (auto& q : pos) for (int prec : {0, 5}) p.seeds.push_back(DMS::Encode(q.second, prec, DMS::AZIMUTH)), p.seeds.push_back(DMS::Encode(q.second, prec, DMS::LONGITUDE));
     cap(p.seeds); P.push_back(p); }
   for (int lf = 0; lf < 2; ++lf) { // ---- GeoCoords(string)
     Parser p; p.name = std::string("GeoCoords(string)") + (lf ? "[longfirst]" : "");
     p.run = [lf](const std::string& s) { PR pr; pr.t = fault::guarded([&] { GeoCoords g(s, true, lf != 0); volatile double r = g.Latitude() + g.Easting(); (void)r; std::string a = g.GeoRepresentation(3) + g.DMSRepresentation(2) + g.MGRSRepresentation(1) + g.UTMUPSRepresentation(1) + g.AltUTMUPSRepresentation(0) + g.AltMGRSRepresentation(0); }); return pr; };
-    for (auto& q : pos) { GeoCoords g(q.first, q.second); p.seeds.push_back(g.GeoRepresentation(4)); p.seeds.push_back(g.DMSRepresentation(1)); p.seeds.push_back(g.MGRSRepresentation(2)); p.seeds.push_back(g.UTMUPSRepresentation(0)); p.seeds.push_back(g.UTMUPSRepresentation(2, false)); p.seeds.push_back(g.DMSRepresentation(0, true, ':')); }
+    if (g_gen) for (auto& q : pos) { GeoCoords g(q.first, q.second); p.seeds.push_back(g.GeoRepresentation(4)); p.seeds.push_back(g.DMSRepresentation(1)); p.seeds.push_back(g.MGRSRepresentation(2)); p.seeds.push_back(g.UTMUPSRepresentation(0)); p.seeds.push_back(g.UTMUPSRepresentation(2, false)); p.seeds.push_back(g.DMSRepresentation(0, true, ':')); }
     cap(p.seeds); P.push_back(p);
   }
   { // ---- GeoCoords::Reset(string) on a live object
@@ -85,7 +88,7 @@ static std::vector<Parser> make_parsers(bool T) {
       pr.t = fault::guarded([&] { g.Reset(s); }); std::string after;
       Thrown t2 = fault::guarded([&] { after = g.GeoRepresentation(9) + g.UTMUPSRepresentation(9); }); if (!pr.t.threw() && t2.threw()) pr.t = t2;
       return pr; };
-    for (auto& q : pos) { GeoCoords g(q.first, q.second); p.seeds.push_back(g.MGRSRepresentation(-1)); p.seeds.push_back(g.MGRSRepresentation(5)); p.seeds.push_back(g.UTMUPSRepresentation(3)); }
+    if (g_gen) for (auto& q : pos) { GeoCoords g(q.first, q.second); p.seeds.push_back(g.MGRSRepresentation(-1)); p.seeds.push_back(g.MGRSRepresentation(5)); p.seeds.push_back(g.UTMUPSRepresentation(3)); }
     cap(p.seeds); P.push_back(p);
   }
   for (int cp = 0; cp < 2; ++cp) { // ---- MGRS::Reverse
@@ -96,7 +99,7 @@ static std::vector<Parser> make_parsers(bool T) {
         if (!pr.t.threw()) break;
         ALT(zone == IS, "zone"); ALT(prec == IS, "prec"); ALT(dsame(x), "x"); ALT(dsame(y), "y"); ALT(np == north[k], "northp"); if (!pr.altered.empty()) break; }
       return pr; };
-    for (auto& q : pos) for (int prec : {-1, 0, 1, 5, 11}) { std::string m; int z; bool n; double x, y; UTMUPS::Forward(q.first, q.second, z, n, x, y); MGRS::Forward(z, n, x, y, q.first, prec, m); p.seeds.push_back(m); }
+    if (g_gen) for (auto& q : pos) for (int prec : {-1, 0, 1, 5, 11}) { std::string m; int z; bool n; double x, y; UTMUPS::Forward(q.first, q.second, z, n, x, y); MGRS::Forward(z, n, x, y, q.first, prec, m); p.seeds.push_back(m); }
     p.seeds.push_back("INVALID"); p.seeds.push_back("INV");
     cap(p.seeds); P.push_back(p);
   }
@@ -104,7 +107,7 @@ static std::vector<Parser> make_parsers(bool T) {
     Parser p; p.name = "MGRS::Decode";
     p.run = [](const std::string& s) { PR pr; std::string a = "<s1>", b = "<s2>", c = "<s3>", d = "<s4>";
       pr.t = fault::guarded([&] { MGRS::Decode(s, a, b, c, d); }); if (pr.t.threw()) { ALT(a == "<s1>", "gridzone"); ALT(b == "<s2>", "block"); ALT(c == "<s3>", "easting"); ALT(d == "<s4>", "northing"); } return pr; };
-    for (auto& q : pos) for (int prec : {-1, 0, 2, 5, 11}) { std::string m; int z; bool n; double x, y; UTMUPS::Forward(q.first, q.second, z, n, x, y); MGRS::Forward(z, n, x, y, q.first, prec, m); p.seeds.push_back(m); }
+    if (g_gen) for (auto& q : pos) for (int prec : {-1, 0, 2, 5, 11}) { std::string m; int z; bool n; double x, y; UTMUPS::Forward(q.first, q.second, z, n, x, y); MGRS::Forward(z, n, x, y, q.first, prec, m); p.seeds.push_back(m); }
     cap(p.seeds); P.push_back(p);
   }
   { // ---- UTMUPS::DecodeZone
@@ -112,30 +115,30 @@ static std::vector<Parser> make_parsers(bool T) {
     p.run = [](const std::string& s) { PR pr; bool north[2] = {false, true};
       for (int k = 0; k < 2; ++k) { int zone = IS; bool np = north[k]; pr.t = fault::guarded([&] { UTMUPS::DecodeZone(s, zone, np); }); if (!pr.t.threw()) break; ALT(zone == IS, "zone"); ALT(np == north[k], "northp"); if (!pr.altered.empty()) break; }
       return pr; };
-    for (int z : {0, 1, 2, 9, 10, 31, 32, 59, 60}) for (int n = 0; n < 2; ++n) for (int abbrev = 0; abbrev < 2; ++abbrev) p.seeds.push_back(UTMUPS::EncodeZone(z, n != 0, abbrev != 0));
+    if (g_gen) for (int z : {0, 1, 2, 9, 10, 31, 32, 59, 60}) for (int n = 0; n < 2; ++n) for (int abbrev = 0; abbrev < 2; ++abbrev) p.seeds.push_back(UTMUPS::EncodeZone(z, n != 0, abbrev != 0));
     for (const char* s : {"inv", "INV", "invalid", "n", "south", "01N", "1North"}) p.seeds.push_back(s);
     cap(p.seeds); P.push_back(p);
   }
   { // ---- Geohash::Reverse
     Parser p; p.name = "Geohash::Reverse";
     p.run = [](const std::string& s) { PR pr; double lat = DS, lon = DS; int len = IS; pr.t = fault::guarded([&] { Geohash::Reverse(s, lat, lon, len, true); }); if (pr.t.threw()) { ALT(dsame(lat), "lat"); ALT(dsame(lon), "lon"); ALT(len == IS, "len"); } return pr; };
-    for (auto& q : pos) for (int len : {1, 2, 5, 12, 18}) { std::string g; Geohash::Forward(q.first, q.second, len, g); p.seeds.push_back(g); }
+    if (g_gen) for (auto& q : pos) for (int len : {1, 2, 5, 12, 18}) { std::string g; Geohash::Forward(q.first, q.second, len, g); p.seeds.push_back(g); }
     p.seeds.push_back("invalid"); p.seeds.push_back("nan");
     cap(p.seeds); P.push_back(p);
   }
   { Parser p; p.name = "GARS::Reverse";
     p.run = [](const std::string& s) { PR pr; double lat = DS, lon = DS; int prec = IS; pr.t = fault::guarded([&] { GARS::Reverse(s, lat, lon, prec, true); }); if (pr.t.threw()) { ALT(dsame(lat), "lat"); ALT(dsame(lon), "lon"); ALT(prec == IS, "prec"); } return pr; };
-    for (auto& q : pos) for (int prec : {0, 1, 2}) { std::string g; GARS::Forward(q.first, q.second, prec, g); p.seeds.push_back(g); }
+    if (g_gen) for (auto& q : pos) for (int prec : {0, 1, 2}) { std::string g; GARS::Forward(q.first, q.second, prec, g); p.seeds.push_back(g); }
     p.seeds.push_back("INVALID");
     cap(p.seeds); P.push_back(p); }
   { Parser p; p.name = "Georef::Reverse";
     p.run = [](const std::string& s) { PR pr; double lat = DS, lon = DS; int prec = IS; pr.t = fault::guarded([&] { Georef::Reverse(s, lat, lon, prec, false); }); if (pr.t.threw()) { ALT(dsame(lat), "lat"); ALT(dsame(lon), "lon"); ALT(prec == IS, "prec"); } return pr; };
-    for (auto& q : pos) for (int prec : {-1, 0, 2, 3, 11}) { std::string g; Georef::Forward(q.first, q.second, prec, g); p.seeds.push_back(g); }
+    if (g_gen) for (auto& q : pos) for (int prec : {-1, 0, 2, 3, 11}) { std::string g; Georef::Forward(q.first, q.second, prec, g); p.seeds.push_back(g); }
     p.seeds.push_back("INVALID");
     cap(p.seeds); P.push_back(p); }
   { Parser p; p.name = "OSGB::GridReference(string)";
     p.run = [](const std::string& s) { PR pr; double x = DS, y = DS; int prec = IS; pr.t = fault::guarded([&] { OSGB::GridReference(s, x, y, prec, true); }); if (pr.t.threw()) { ALT(dsame(x), "x"); ALT(dsame(y), "y"); ALT(prec == IS, "prec"); } return pr; };
-    for (double x : {-999999.5, -1.0, 0.0, 123456.789, 400000.0, 651409.9, 1499999.0}) for (double y : {-499999.0, 0.5, 313177.27, 1999999.0}) for (int prec : {0, 1, 5, 11}) { std::string g; OSGB::GridReference(x, y, prec, g); p.seeds.push_back(g); }
+    if (g_gen) for (double x : {-999999.5, -1.0, 0.0, 123456.789, 400000.0, 651409.9, 1499999.0}) for (double y : {-499999.0, 0.5, 313177.27, 1999999.0}) for (int prec : {0, 1, 5, 11}) { std::string g; OSGB::GridReference(x, y, prec, g); p.seeds.push_back(g); }
     p.seeds.push_back("INVALID"); p.seeds.push_back("TG 51409 13177");
     cap(p.seeds); P.push_back(p); }
   // ---- Utility
@@ -198,7 +201,7 @@ int main(int argc, char** argv) {
   Ctx ctx(argc, argv);
   const bool T = ctx.thorough();
   std::string dir = fault::tmp_dir("C13");
-  std::vector<Parser> P = make_parsers(T);
+  std::vector<Parser> P = make_parsers(T);       // without encoder-made seeds
   const std::string A256 = fault::all_bytes(), A64 = alpha64(), A3 = T ? A64 : alpha24();
   const std::vector<std::string> NASTY = nasty();
   const uint64_t n2 = fault::count_strings(256, 2), n3 = (uint64_t)A3.size() * A3.size() * A3.size();
@@ -210,6 +213,18 @@ int main(int argc, char** argv) {
   ctx.bound("strings.nasty", (long long)NASTY.size());
 
   fault::Isolator iso(dir, "strings");
+  { // seed strings are produced by the library's encoders inside a child
+    iso.batch = 1; iso.slot_bytes = 1 << 20;
+    ctx.sub("strings-seed-generation");
+    bool ok = false;
+    iso.run(1, [&](size_t, Report& rep) { g_gen = true; std::vector<Parser> Q = make_parsers(T); for (size_t k = 0; k < Q.size(); ++k) for (auto& sd : Q[k].seeds) rep.data(std::to_string(k) + ":" + sd); },
+      [&](size_t, const Result& r) {
+        Ctx::Case cs(ctx); ctx.sig(r.oc);
+        if (r.oc == fault::OK && !r.overflow) { ok = true; for (auto& pp : P) pp.seeds.clear(); for (auto& d : r.data) { size_t c = d.find(':'); P[atoi(d.substr(0, c).c_str())].seeds.push_back(d.substr(c + 1)); } }
+        else ctx.fail("seed-generation", "producing the valid seed strings with the library's encoders -> " + r.describe(), {{"kind", r.oc == fault::SANITIZER ? "sanitizer" : "crash"}, {"parser", "seed-generation"}, {"check", r.check}, {"func", r.func}, {"where", r.where}});
+      });
+    (void)ok;
+  }
   iso.batch = 512; iso.slot_bytes = 1024;
   for (auto& p : P) {
     ctx.sub("strings-" + p.name);
